@@ -56,7 +56,8 @@ def _run_one(args):
     except loader.AnalysisError as e:
         return m['id'], pid, 'skipped', 'mutant does not parse: %s' % e
     rc, ev, ctx = runner.run_property(pid, 'quick', repo=repo, write=False,
-                                      quiet=True, selftest=False)
+                                      quiet=True, selftest=False,
+                                      pooled=False)
     hits = [f for f in ctx.findings if f['rule'] == m['rule']]
     if hits:
         return m['id'], pid, 'reported', '%s %s' % (
@@ -133,7 +134,7 @@ def _patched_sources(patch, base_sources):
 
 
 def _run_patch(args):
-    patch, pid = args
+    patch, pid, pooled = args
     from . import run as runner
     ov = _patched_sources(patch, None)
     if ov is None:
@@ -143,7 +144,8 @@ def _run_patch(args):
     except loader.AnalysisError:
         return patch, 'skipped'
     rc, ev, ctx = runner.run_property(pid, 'quick', repo=repo, write=False,
-                                      quiet=True, selftest=False)
+                                      quiet=True, selftest=False,
+                                      pooled=pooled)
     return patch, {0: 'silent', 1: 'reported', 2: 'error'}.get(rc, 'error')
 
 
@@ -175,7 +177,8 @@ def corpus(pid, jobs=None, consulted=None):
     out = dict(seeded=len(seeds), seeded_reported=0, seeded_missed=[],
                benign=len(benign), benign_silent=0, benign_alarm=[],
                skipped=0)
-    todo = [(p, pid) for p in seeds + benign]
+    todo = [(p, pid, True) for p in seeds] + [(p, pid, False)
+                                              for p in benign]
     if not todo:
         return out
     jobs = jobs or min(16, os.cpu_count() or 4, len(todo))
